@@ -54,6 +54,8 @@ type cdpU struct {
 	prodByID map[uint64]*uProduct
 	cdpApps  []uint64
 	variant  int
+	denoms   []string // when set, replaces cdpDenoms in snapshots (views over other universes)
+	extraMods []string
 }
 
 func dec(s string) sdk.Dec { return sdk.MustNewDecFromStr(s) }
